@@ -81,6 +81,8 @@ def op_term(op, dyn=False):
         return C(k + "All", Nat(op[1]), Nat(op[2]), [mterm(m) for m in ms])
     if k == "SetRef":
         return C("SetRef", Nat(op[1]), Nat(op[2]), [] if op[3] is None else [Nat(op[3])])
+    if k == "SetCont" and op[-1] == "del":
+        return C("DelCont", Nat(op[1]), Nat(op[2]))
     if k == "SetCont":
         items = [a[1] for a in op[3]] if op[2] == 4 else list(op[3])
         return C("SetCont", Nat(op[1]), Nat(op[2]), nats(items), bool(op[4]))
@@ -105,6 +107,20 @@ def slot(key):
     return int(a), int(b)
 
 
+def undelta(obs):
+    """The drivers send a dump only when it differs from the one after the previous operation (None = same)."""
+    heap, hooks = {}, {}
+    for ob in obs:
+        if ob.get("heap") is None:
+            ob["heap"] = heap
+        heap = ob["heap"]
+        if "hooks" in ob:
+            if ob["hooks"] is None:
+                ob["hooks"] = hooks
+            hooks = ob["hooks"]
+    return obs
+
+
 def obs_term(ob, prev_heap):
     out = C("Ok") if ob["out"] == "Ok" else C("Raise", C(ob["out"]))
     calls = [((Nat(c[0]), Nat(c[1])), atom(c[2]), Nat(c[3]), nats(c[4]), nats(c[5])) for c in ob["calls"]]
@@ -119,6 +135,7 @@ def obs_term(ob, prev_heap):
 
 def to_term(case, obs):
     h = []
+    undelta(obs)
     prev_heap, prev_hooks = {}, None
     for op, ob in zip(case["ops"], obs):
         obt = obs_term(ob, prev_heap)
@@ -138,6 +155,8 @@ def to_term(case, obs):
 
 
 def opkind(op):
+    if op[0] in ("SetRef", "SetCont") and op[-1] == "del":
+        return "del.%s" % FIELD[op[2]]
     if op[0] == "AddTrait":
         return "AddTrait." + FIELD[op[2]]
     if op[0] == "Cop":
@@ -321,7 +340,10 @@ def gen_case(rnd, ctx, maxmut, cyclic=False):
             v = rnd.choice(list(range(npool)) + [None, None])
             if v is not None and sh.reaches(v, o):
                 return None
+            was = sh.ref[(o, f)]
             sh.ref[(o, f)] = v
+            if v is None and was is not None and rnd.random() < 0.4:
+                return ["SetRef", o, f, None, "del"]            # del o.f
             return ["SetRef", o, f, v]
         if r < 0.42:
             f = rnd.choice([3, 3, 4, 5])
@@ -348,6 +370,7 @@ def gen_case(rnd, ctx, maxmut, cyclic=False):
             else:
                 de = False
             sh.new_cont(o, f, [list(a) for a in items] if f == 4 else items)
+            # (del o.kids is not drawn at random: it is a finding, see the corpus trigger del-container)
             return ["SetCont", o, f, items, de]
         if r < 0.47:
             f = rnd.choice([3, 4, 5])
@@ -372,7 +395,7 @@ def gen_case(rnd, ctx, maxmut, cyclic=False):
         n = len(cur)
         if kind == 6:
             meth = rnd.choice(["append", "append", "insert", "pop", "setitem", "delitem", "clear", "extend",
-                               "remove", "setslice", "setslice", "delslice", "iadd", "reverse", "sort"])
+                               "remove", "setslice", "setslice", "delslice", "iadd", "reverse", "sort", "imul"])
             if meth in ("append",):
                 if not ok_v:
                     return None
@@ -430,6 +453,11 @@ def gen_case(rnd, ctx, maxmut, cyclic=False):
                 args = [i, j, vs]
                 if set(vs) & set(cur[i:j]):
                     follow.extend([c, c])
+            elif meth == "imul":
+                if not n or n > 3:
+                    return None
+                sp = [n, 0, list(cur)]          # xs *= 2: every object once more
+                args = [2]
             elif meth == "reverse":
                 if n < 2:
                     return None
@@ -665,6 +693,11 @@ def corpus():
         ["Cop", 3, 6, "setslice", [0, 1, [1, 1, 2]], [0, 1, [1, 1, 2]]]] + probes_for(3) + [
         ["Cop", 3, 6, "pop", [0], [0, 1, []]]] + probes_for(3) + [
         ["Cop", 3, 6, "reverse", [], [0, 2, [2, 1]]], ["Cop", 3, 6, "pop", [0], [0, 1, []]]] + probes_for(3)))
+    # finding: del o.kids notifies twice, the new default list is hooked twice; once replaced it keeps calling
+    ki = parse_named("kids.items")
+    cs.append(dict(npool=3, shape="acyclic-del", name="del-container", ops=[
+        ["SetCont", 0, 3, [1], False], ["Observe", 0, 0, ki], ["SetCont", 0, 3, [], False, "del"]] + probes_for(3) + [
+        ["SetCont", 0, 3, [2], False], ["Cop", 4, 6, "append", [1], [0, 0, [1]]]] + probes_for(3)))
     # F14, first form: a cycle through the root leaves a stale maintainer
     ffv = parse_named("f.f.value")
     cs.append(dict(npool=2, shape="cyclic", name="f14-cycle-through-root", ops=[
@@ -789,8 +822,8 @@ def check_hyps(ctx, cases):
         return
     bad = set(i for i, _ in res)
     acyc_bad = sorted(i for i in bad if cases[i].get("shape") == "acyclic")
-    cyc = [i for i, c in enumerate(cases) if c.get("shape") == "cyclic"]
-    ctx.obligation(name, not acyc_bad, "hyps = true on %d of %d acyclic histories; false on %d of %d cyclic trigger histories" % (
+    cyc = [i for i, c in enumerate(cases) if c.get("shape") != "acyclic"]
+    ctx.obligation(name, not acyc_bad, "hyps = true on %d of %d acyclic histories; false on %d of %d trigger histories of the findings" % (
         len(cases) - len(cyc) - len(acyc_bad), len(cases) - len(cyc), sum(1 for i in cyc if i in bad), len(cyc)))
     if acyc_bad:
         ctx.notes.append("hyps false on acyclic case %d: %r" % (acyc_bad[0], cases[acyc_bad[0]]["ops"]))
